@@ -198,7 +198,8 @@ pub fn gap(d: &mut Dice<'_>, must_separate: bool, left_is_slash: bool, comments:
         match d.below(if comments { 7 } else { 4 }) {
             0 | 1 => s.push(' '),
             2 => s.push('\n'),
-            3 => s.push_str(["  ", "\t", "\n\n", "\r\n", " \n  "][d.below(5)]),
+            // (the grammar language's white space is blank, tab, CR, LF and form feed)
+            3 => s.push_str(["  ", "\t", "\n\n", "\r\n", " \n  ", "\x0c", "\n\x0c\n", "\r"][d.below(8)]),
             _ => {
                 if k == 0 && left_is_slash {
                     s.push(' ');
